@@ -8,7 +8,7 @@
    guarantees about references, [pre] the property's own precondition, the [g_*] guards are the
    complements of the regions refuted below (DESIGN §5 keys). *)
 From Coq Require Import String Ascii List ZArith Bool Arith.
-From BP Require Import EmitBase EmitNames Emit EmitSpec EmitCheck EmitProofs EmitDbu EmitDbuMain EmitDbuPy EmitStr EmitUnique EmitWitness.
+From BP Require Import EmitBase EmitNames Emit EmitSpec EmitCheck EmitProofs EmitDbu EmitDbuMain EmitDbuPy EmitStr EmitUnique EmitUnique2 EmitWitness.
 From BPGen Require Import GenC10.
 Import ListNotations.
 Open Scope string_scope.
@@ -93,19 +93,53 @@ Theorem C10_fixed_findings_regression :
 Proof. vm_compute. repeat split; try reflexivity. discriminate. Qed.
 Print Assumptions C10_fixed_findings_regression.
 
-(* ---- no two generated declarations share a name: C translation unit in standard mode
-   (header ++ source): defining declarations (macros, struct tags, typedefs, function
-   definitions - internal helper functions included) are pairwise distinct per C name space,
-   and so are the prototypes.  PARTIAL in scope: proved for the standard-mode C output; for the
-   -O outputs, Python and Go the same check ([unique_b]) is evaluated on every generated schema
-   (tie T2) but not proved for all schemas. ---- *)
-Theorem C10_names_unique_partial :
+(* ---- no two generated declarations share a name, for EVERY target.  For C the translation
+   unit (header ++ source) is taken, in standard mode and in -O mode with any -F list: defining
+   declarations (macros, struct tags, typedefs, function definitions - internal helpers included)
+   are pairwise distinct per C name space, and so are the prototypes.  For Python the module-level
+   names (classes, bp_processor_* / bp_default_factory_* functions, constants, enum member aliases,
+   value-to-name maps); for Go the package-level names (types, consts, size consts, the two vars)
+   and the methods per receiver type (name space NsMember T).  Guards: [g_helper] and [g_derived]
+   for C, [g_derived] for Python and Go - the complements of the refuted regions below. ---- *)
+Theorem C10_names_unique :
   forall (s : schema) (i : nat) (flt : list string),
-    wf s = true -> i < length s -> pre LC s i = true ->
-    g_helper s i = true -> g_derived LC s i = true ->
-    unique_b (decls_of (render_items s i TgH flt ++ render_items s i TgC flt)) = true.
-Proof. exact names_unique_C. Qed.
-Print Assumptions C10_names_unique_partial.
+    wf s = true -> i < length s ->
+    (pre LC s i = true -> g_helper s i = true -> g_derived LC s i = true ->
+       unique_b (decls_of (render_items s i TgH flt ++ render_items s i TgC flt)) = true /\
+       unique_b (decls_of (render_items s i TgHO flt ++ render_items s i TgCO flt)) = true) /\
+    (pre LPy s i = true -> g_derived LPy s i = true -> unique_b (decls_of (render_items s i TgPy flt)) = true) /\
+    (pre LGo s i = true -> g_derived LGo s i = true -> unique_b (decls_of (render_items s i TgGo flt)) = true).
+Proof.
+  intros s i flt Hwf Hi. split; [|split].
+  - intros Hp Hh Hd. split; [apply names_unique_C | apply names_unique_CO]; assumption.
+  - intros Hp Hd. apply names_unique_Py; assumption.
+  - intros Hp Hd. apply names_unique_Go; assumption.
+Qed.
+Print Assumptions C10_names_unique.
+
+(* ---- names inside one class / struct: the attributes of a Python dataclass (BYTES_LENGTH, the
+   fields, _enum_field_proxy__<f>, __post_init__, dict_factory, _get_<f> / _set_<f>, the seven
+   methods), the members of a Python IntEnum class, and the fields + methods of a Go struct are
+   pairwise distinct.  Python needs the guard [g_py_attrs] (no field name starts with "_"). ---- *)
+Theorem C10_member_names_unique :
+  forall (s : schema) (i : nat) (fd : fdef), In fd (flat_file (getf s i)) ->
+    (pre LPy s i = true -> g_py_attrs s i = true -> NoDup (py_class_attrs fd)) /\
+    (pre LGo s i = true -> NoDup (go_struct_members fd)).
+Proof.
+  intros s i fd Hfd. split.
+  - intros Hp Hg. apply (py_attrs_unique s i Hp Hg fd Hfd).
+  - intros Hp. apply (go_members_unique s i fd Hp Hfd).
+Qed.
+Print Assumptions C10_member_names_unique.
+
+(* a field called _get_mode next to an enum-typed field mode: the dataclass gets two attributes
+   _get_mode (confirmed on CPython: the class instantiates, its default for _get_mode is the getter
+   function and encode() raises TypeError)  [py-attr-collision] *)
+Theorem C10_member_names_unique_refuted :
+  inside_pre w_attr = true /\ g_py_attrs w_attr 0 = false /\
+  forallb (fun fd => nodup_str (py_class_attrs fd)) (flat_file (getf w_attr 0)) = false.
+Proof. vm_compute. repeat split; reflexivity. Qed.
+Print Assumptions C10_member_names_unique_refuted.
 
 (* ---- further refuted regions (each witness is inside [wf] and [pre] for all languages) ---- *)
 
